@@ -1,6 +1,8 @@
 #!/usr/bin/env python3
 """print a compact summary of a symgo result file"""
-import json,sys
+import json,sys,re
+def dec(o):
+    return re.sub(r'\bs(\d+(?:\.\d+)*)\b', lambda m: json.dumps(bytes(int(x) for x in m.group(1).split('.')).decode('latin1')), o)
 rr=json.load(open(sys.argv[1]))
 runs=rr['runs'] if 'runs' in rr else [rr]
 for r in runs:
@@ -16,4 +18,4 @@ for r in runs:
         k=(p['msg'],p.get('where'))
         if k in seen: continue
         seen.add(k)
-        print(r['entry'],r['params'],'VIOLATION',p['kind'],p['msg'][:200],'@',p.get('where'),{k:v for k,v in (p.get('model') or {}).items() if v not in ('0','false')}, (p.get('obs') or [])[:4])
+        print(r['entry'],r['params'],'VIOLATION',p['kind'],p['msg'][:200],'@',p.get('where'),{k:v for k,v in (p.get('model') or {}).items() if v not in ('0','false')}, [dec(o) for o in (p.get('obs') or [])[:4]])
